@@ -10,5 +10,6 @@ INVARIANT TypeOK
 INVARIANT RefPartial
 INVARIANT RefConvOK
 INVARIANT ImplAgrees
+INVARIANT DeviationsExplained
 INVARIANT StepsAreImplCall
 CHECK_DEADLOCK FALSE
